@@ -1,5 +1,6 @@
 import Bd.Valid
 import Ln.Basic
+import Ln.Strip
 import Bd.Canon
 
 /-! # C11 — property theorems (statements only; proofs live in the family libraries) -/
@@ -49,6 +50,16 @@ theorem validScript_sound :
     rebuild s old (inserted s new) = new ∧
     ∃ us, translate s 0 (.eq, 0) [] = .ok us :=
   @Bd.validScript_sound
+end
+
+section
+open Ln
+
+/-- whitespace-ignore mode: removing the spaces (as `stripWhitespace` does) never changes the number of lines, so the
+counts FileDiff reports for the stripped text are those of `CountLines` on the raw blob -/
+theorem countLines_stripWS :
+    ∀ (b : List Nat), countLines (stripWS b) = countLines b :=
+  @Ln.countLines_stripWS
 end
 
 end Props.C11
